@@ -1012,7 +1012,22 @@ fn hash_events(ev: &[String]) -> u64 {
 
 fn verdict(w: &LspWorld, script: Option<&Script>, seed: u64, known: &KnownFindings) -> Result<(Option<(String, String)>, SimResult, Vec<String>), String> {
   materialize(w);
-  let sim = simulate(w, script, seed);
+  // a fresh thread per history: std's hash keys are per thread and fixed at first use, so
+  // re-using one thread would make map orders depend on which run came first in the process
+  let sim = std::thread::scope(|sc| {
+    std::thread::Builder::new()
+      .name("sim-lsp".into())
+      .spawn_scoped(sc, || {
+        hashseam::set_sim_tid(1);
+        simulate(w, script, seed)
+      })
+      .expect("spawn lsp simulation thread")
+      .join()
+  });
+  let sim = match sim {
+    Ok(s) => s,
+    Err(p) => return Err(format!("simulation thread panicked: {}", crate::driver::panic_msg(&p))),
+  };
   let mut met = vec![];
   let v = check(w, &sim, known, &mut met)?;
   Ok((v, sim, met))
@@ -1124,6 +1139,11 @@ impl Simulation for C09Sim {
     r.known = met;
     r.evals = 1;
     r.steps = sim.polls;
+    if std::env::var("AGSIM_DUMP_EVENTS").is_ok() {
+      for e in &sim.events {
+        eprintln!("EV {e}");
+      }
+    }
     r.event_hash = hash_events(&sim.events);
     let shape: Vec<String> = sim.events.iter().map(|e| e.split(' ').take(2).collect::<Vec<_>>().join(" ")).collect();
     r.shape_hash = fnv1a(shape.join("\n").as_bytes());
